@@ -111,6 +111,21 @@ def parse_lines(text):
     return out
 
 
+def budget_scenarios(ctx, start_run):
+    """the back-off policy's own time budget (cenkalti/backoff: 15 minutes of elapsed time) ends the retrying: with a first pause
+    that cannot fit into it the batch is given up at its first failure, through the policy's Stop -- the other exit of the retry loop.
+    What happens to the batch then is the same as on exhaustion (dead queue alone / error callback and main, once)."""
+    rng = ctx.rng
+    out = []
+    for k in range(4):
+        nev = rng.randint(2, 5)
+        sc = base(start_run + k, cap=8, workers=rng.choice([1, 2]), batch=rng.choice([1, 2]), retry=rng.choice([2, 5]), dq=(k % 2 == 0), dqworkers=1, dqbatch=1,
+                  fail_pct=100, max_fails=1, retention_us=2000000000, lines=random_lines(rng, nev, 1, ["a"], ["P"]))
+        sc["name"] = "retry-budget-%d" % (start_run + k)
+        out.append(sc)
+    return out
+
+
 def window_scenarios(ctx, n, start_run):
     """put || tryUnblock window on a stream whose owner sleeps behind a held run (TLC: StreamProto mutant M_UnblockOnlyIfEmpty)"""
     out = []
@@ -268,7 +283,8 @@ def records(viol, scen_by_run, kinds):
             continue
         sc = scen_by_run.get(x["run"], {})
         recs.append({"kind": v["kind"], "id": v["id"], "other": v["other"], "by": v["by"], "info": v["info"],
-                     "run": x["run"], "n": x["n"], "dq": sc.get("dq"), "scenario": sc})
+                     "run": x["run"], "n": x["n"], "dq": sc.get("dq"), "first_pause_exceeds_backoff_budget": sc.get("retention_us", 0) >= 1800000000,
+                     "scenario": sc})
     return recs
 
 
